@@ -1,6 +1,91 @@
-import CCT.Model.Auth
-/-! # C06 (theorems; work in progress) -/
+import CCT.Props.C05
+import CCT.Props.C02
+/-!
+# C06 — the declared metadata type is bound to the role by signed content alone
+-/
 namespace CCT.C06
-open CCT
-theorem placeholder : okU = .ok () := rfl
+open CCT CCT.C15 CCT.C05
+open Classical
+
+/-- metadata whose signed portion is itself well-formed delegating metadata declaring another type is never accepted as that role —
+whatever the (unsigned) signature map contains -/
+theorem type_mismatch_never_accepted (C : CryptoFns) (name : PStr) (u t : J) (gpg : Bool) (h : TypeMismatch name u) :
+    verifyDelegationJ C name u t gpg ≠ .ok () := by
+  intro hok
+  exact ((verifyDelegation_iff C name u t gpg).mp hok).2.2.1 h
+
+/-- and with well-formed trusted metadata it is reported as a metadata-verification error -/
+theorem type_mismatch_error (C : CryptoFns) (name : PStr) (u t : J) (gpg : Bool) (hT : Schema t) (hU : isSignableJ u = true)
+    (h : TypeMismatch name u) : verifyDelegationJ C name u t gpg = .error .metadataVerification := by
+  rw [verifyDelegation_eq, if_neg (by simp [hT, hU]), if_pos h]
+
+/-- the same envelope with another signature map -/
+def withEntries (u : J) (entries : List (PStr × J)) : J :=
+  .obj [(ps! "signatures", .obj entries), (ps! "signed", signedOf u)]
+
+theorem withEntries_parts (u : J) (e : List (PStr × J)) :
+    isSignableJ (withEntries u e) = true ∧ signedOf (withEntries u e) = signedOf u ∧ entriesOf (withEntries u e) = e := by
+  simp [withEntries, isSignableJ, keysetEq, dictKeys, dictGet, signedOf, entriesOf, jget, entryField]
+
+theorem typeMismatch_withEntries (name : PStr) (u : J) (e : List (PStr × J)) : TypeMismatch name (withEntries u e) ↔ TypeMismatch name u := by
+  simp [TypeMismatch, typeOf, (withEntries_parts u e).2.1]
+
+/-- the entries that count for a rule -/
+noncomputable def countingFor (C : CryptoFns) (gpg : Bool) (d u : J) : List (PStr × J) :=
+  (entriesOf u).filter fun p => decide (Counts C gpg (keysOf d) (ser (signedOf u)) p.1 p.2)
+
+theorem ruleMet_congr (C : CryptoFns) (gpg : Bool) (d u : J) (e : List (PStr × J))
+    (h : ∀ k sig, Counts C gpg (keysOf d) (ser (signedOf u)) k sig → ((k, sig) ∈ entriesOf u ↔ (k, sig) ∈ e)) :
+    RuleMet C gpg d (withEntries u e) ↔ RuleMet C gpg d u := by
+  obtain ⟨_, h2, h3⟩ := withEntries_parts u e
+  simp only [RuleMet, h2, h3]
+  exact (C01.thresholdMet_iff_counting C gpg _ _ _ _ h _).symm
+
+/-- **accept implies stripped accept** (delegation): keeping only the valid signatures by the role's authorized keys preserves acceptance -/
+theorem accept_implies_stripped_accept (C : CryptoFns) (name : PStr) (u t : J) (gpg : Bool) (d : J) (hr : roleOf t name = some d)
+    (h : verifyDelegationJ C name u t gpg = .ok ()) :
+    verifyDelegationJ C name (withEntries u (countingFor C gpg d u)) t gpg = .ok () := by
+  obtain ⟨hT, hU, hm, d', hd', hmet⟩ := (verifyDelegation_iff C name u t gpg).mp h
+  rw [hr] at hd'; cases hd'
+  refine (verifyDelegation_iff C name _ t gpg).mpr ⟨hT, (withEntries_parts _ _).1, fun hx => hm ((typeMismatch_withEntries _ _ _).mp hx), d, hr, ?_⟩
+  refine (ruleMet_congr C gpg d u _ ?_).mpr hmet
+  intro k sig hc
+  simp [countingFor, hc]
+
+/-- **nothing added to the unsigned signature map, short of a counting signature, turns a rejection into an acceptance** -/
+theorem unsigned_part_cannot_help (C : CryptoFns) (name : PStr) (u t : J) (gpg : Bool) (junk : List (PStr × J))
+    (hj : ∀ d, roleOf t name = some d → ∀ p ∈ junk, ¬ Counts C gpg (keysOf d) (ser (signedOf u)) p.1 p.2)
+    (hU : isSignableJ u = true)
+    (h : verifyDelegationJ C name (withEntries u (entriesOf u ++ junk)) t gpg = .ok ()) :
+    verifyDelegationJ C name u t gpg = .ok () := by
+  obtain ⟨hT, _, hm, d, hd, hmet⟩ := (verifyDelegation_iff C name _ t gpg).mp h
+  refine (verifyDelegation_iff C name u t gpg).mpr ⟨hT, hU, fun hx => hm ((typeMismatch_withEntries _ _ _).mpr hx), d, hd, ?_⟩
+  obtain ⟨_, h2, h3⟩ := withEntries_parts u (entriesOf u ++ junk)
+  simp only [RuleMet, h2, h3] at hmet
+  exact C02.junk_never_helps C gpg _ _ _ junk _ (hj d hd) hmet
+
+/-- for the envelope verifier itself: the verdict is a function of the signed portion and the counting entries alone -/
+theorem verifySignable_counting_only (C : CryptoFns) (u : J) (ks : List J) (thr : J) (gpg : Bool) (hk : ∀ k ∈ ks, HexN 64 k)
+    (e' : List (PStr × J))
+    (he : ∀ k sig, Counts C gpg (ks.map strOf) (ser (signedOf u)) k sig → ((k, sig) ∈ entriesOf u ↔ (k, sig) ∈ e'))
+    (h : verifySignableJ C u (.arr ks) thr gpg = .ok ()) :
+    verifySignableJ C (withEntries u e') (.arr ks) thr gpg = .ok () := by
+  obtain ⟨entries, signed, ks', t, hp, e, _, ht, hpos, hm⟩ := C01.verifySignable_sound C u _ thr gpg h
+  cases e
+  obtain ⟨a1, a2⟩ := envParts_accessors hp
+  obtain ⟨w1, w2, w3⟩ := withEntries_parts u e'
+  have hp' : EnvParts (withEntries u e') e' (signedOf u) := by
+    have := envParts_self w1; rw [w2, w3] at this; exact this
+  refine C02.verifySignable_complete C _ _ thr gpg e' (signedOf u) ks t hp' rfl hk ht hpos ?_
+  rw [a1]
+  rw [a1, a2] at he
+  exact (C01.thresholdMet_iff_counting C gpg _ _ entries e' he _).mp hm
+
+/-- in particular for the envelope that keeps only its valid signatures by authorized keys -/
+theorem verifySignable_stripped (C : CryptoFns) (u : J) (ks : List J) (thr : J) (gpg : Bool) (hk : ∀ k ∈ ks, HexN 64 k)
+    (h : verifySignableJ C u (.arr ks) thr gpg = .ok ()) :
+    verifySignableJ C (withEntries u ((entriesOf u).filter fun p => decide (Counts C gpg (ks.map strOf) (ser (signedOf u)) p.1 p.2)))
+      (.arr ks) thr gpg = .ok () :=
+  verifySignable_counting_only C u ks thr gpg hk _ (fun k sig hc => by simp [hc]) h
+
 end CCT.C06
